@@ -165,6 +165,9 @@ impl RenameRule {
 
     #[verifier::external_body]
     pub fn apply_to_variant(&self, variant: &str) -> (r: String)
+        // the dependency's CamelCase arm is `variant[..1].to_ascii_lowercase() + &variant[1..]`: it PANICS
+        // unless the name is non-empty and starts with a one-byte (ASCII) character
+        requires *self is CamelCase ==> variant@.len() > 0 && (variant@[0] as u32) < 128,
         ensures r@ == rule_variant(*self, variant@),
     { unimplemented!() }
 
@@ -207,8 +210,12 @@ impl FieldContext {
 //@ CONTRACT
 //@|    ensures
 //@|        variant_rename is Some ==> r@ == variant_rename->0@,
-//@|        variant_rename is None && enum_rename_all is Some ==> r@ == rule_variant(enum_rename_all->0, variant_name@),
+//@|        variant_rename is None && enum_rename_all is Some && !(enum_rename_all->0 is CamelCase) ==> r@ == rule_variant(enum_rename_all->0, variant_name@),
+//@|        variant_rename is None && enum_rename_all is Some && enum_rename_all->0 is CamelCase ==> r@ == lower_first_spec(variant_name@),
 //@|        variant_rename is None && enum_rename_all is None ==> r@ == rule_field(default_rule(self.config.default_field_case@), variant_name@),
+//@ OUTLINE `match variant_name.chars().next() { Some(first) => first .to_lowercase() .chain(variant_name.chars().skip(1)) .collect(), None => String::new(), }` AS Self::lower_first_str(variant_name)
+//@|pub fn lower_first_str(variant_name: &str) -> (r: String)
+//@|    ensures r@ == lower_first_spec(variant_name@),
 //@ END
 
 //@ EXTRACT-FN file=src/generators/base/template_context.rs in="trait NamingContext" fn=compute_parameter_name props=C04,C15
